@@ -38,12 +38,20 @@ def vhd_spec(draw, tier="quick", layer=0, kind=None):
         return {"kind": "fixed", "size": size, "legacy_footer": legacy, "holes": holes, "layer": layer}
     bits = draw(st.one_of(st.sampled_from([21, 21, 12, 13, 16, 20]), st.integers(12, 22)))
     bs = 1 << bits
-    nb = draw(st.one_of(st.integers(1, 6), st.integers(1, 40)))
+    # large BATs (beyond any table/LRU cache granularity) are cheap: only a sparse set of blocks is described
+    nb = draw(st.one_of(st.integers(1, 6), st.integers(1, 40), st.sampled_from([1023, 1024, 1025, 1500, 4096, 4097, 4200, 9000])))
     tail = draw(st.sampled_from([0, 0, 512, 1024, 4096 + 512, 8192, 8192 + 512, -512]))
     last = bs if tail == 0 else (tail % bs) or bs
     last = max(512, (last // 512) * 512)
     size = (nb - 1) * bs + last
-    alloc_l = [i for i in range(nb) if draw(st.integers(0, 3)) != 0]
+    if nb <= 40:
+        alloc_l = [i for i in range(nb) if draw(st.integers(0, 3)) != 0]
+    else:
+        alloc_l = set(draw(strat.sparse_subset(nb, 24)))
+        for b in (0, 1023, 1024, 1025, 4095, 4096, 4097, nb - 1, nb - 2):
+            if 0 <= b < nb and draw(st.booleans()):
+                alloc_l.add(b)
+        alloc_l = sorted(alloc_l)
     slots = draw(strat.placement(len(alloc_l)))
     bat_len = ((4 * nb + 511) // 512) * 512
     gap1 = 512 * draw(st.sampled_from([0, 0, 1, 5]))
@@ -69,7 +77,10 @@ def vhd_spec(draw, tier="quick", layer=0, kind=None):
 def strategy_(draw, tier):
     spec = draw(vhd_spec(tier))
     unit = spec.get("block_size", 1 << 20)
-    spec["requests"] = draw(strat.requests(spec["size"], unit, count=6))
+    pts = []
+    for b, _so in spec.get("alloc", []):
+        pts += [b * unit, (b + 1) * unit]
+    spec["requests"] = draw(strat.requests(spec["size"], unit, count=6, points=pts[:64], whole_limit=4 << 20))
     spec["sector_requests"] = [[o // 512, max(1, min(n, 1 << 20) // 512)] for o, n in spec["requests"][:2]]
     return spec
 
